@@ -11,7 +11,7 @@ PROPS = {
                 claim="the tokenisers every rule goes through (_next_quote, splitquote) are proved lossless and quote-exact for all "
                       "inputs; Program.match is proved to account for every item of the input on every normal exit (after the repair of its fallback); SequenceBase.match "
                       "is proved to build one node per entry in order; the lexical content of the printed text is compared with the source on a program "
-                      "corpus (bounded); the generic rule bases (match and tostr) and, among the rule-specific methods of Fortran2003.py, 63 tostr "
+                      "corpus (bounded); the generic rule bases (match and tostr) and, among the rule-specific methods of Fortran2003.py, 65 tostr "
                       "and 19 match(string) methods are proved to hand on / print every part of their text (the remaining rule-specific methods are not under contract)",
                 trusted=TRUSTED,
                 explanation="[P] tokenisers, label/name extraction, Program.match item accounting, rule bases, statement-level tostr / match(string) contracts (contracts/small_batch.py); [B] lexical content of printed "
